@@ -30,8 +30,8 @@
                          _mergeNuclides / XSNuclide.merge / XSCollection.merge / _mergeAttributes (a label new to the
                          target is adopted, a known label takes the kinds it lacks).
      MergeRefused(t, o)  a conflict: the call raises and both libraries keep their state (the code's own comment: "nothing
-                         has been modified in two objects"; the conformance check compares the target, which is what the
-                         property's statement constrains, and the bystanders).  Conflicts, in the order the
+                         has been modified in two objects"; the conformance check names a divergence after the target, which
+                         is what the property's statement constrains, before the bystanders and `other`).  Conflicts, in the order the
                          code looks for them:  "Property"  two different energy structures / dose factors
                          (ImmutablePropertyError), "Metadata"  two different file-metadata variants of one kind, or a PMATRX
                          file with dose factors meeting one without (OSError),
